@@ -120,3 +120,7 @@ def run(ctx):
     _fx.parameter_resolution(ctx)  # the quadrature order given with an operator is the order its assembler integrates with
     _fx.assembler_plumbing(ctx)
     _ab.forwarded_optionals(ctx)
+    from .. import singular as _sing
+
+    _sing.check_segments(ctx)  # (tools/wiring.py) the singular part of every dense operator: per-pair segments, offsets
+    _sing.check_offsets(ctx)
